@@ -141,6 +141,9 @@ func runScenario(cs *exCase, w *world, u progen.Universe, code0 []byte, debug bo
 	if debug {
 		if cs.AspLog {
 			tr = rec
+			if len(teeTracers) > 0 {
+				tr = &teeLogger{ls: append([]vm.EVMLogger{rec}, teeTracers...)}
+			}
 		} else {
 			tr = plainLogger{rec}
 		}
